@@ -507,7 +507,7 @@ func boundsOf(ctx *Ctx, fn *ssa.Function, unproven map[string]int, br *boundsRes
 				idx := z.lin(e.Args[1])
 				goals = append(goals, idx, length.add(idx, -1).add(linConst(1), -1))
 				names = append(names, "index ≥ 0", "index < len")
-			case "slice":
+			case "slice", "libslice":
 				lo := linConst(0)
 				if !e.Args[1].IsConst("_") {
 					lo = z.lin(e.Args[1])
@@ -536,7 +536,8 @@ func boundsOf(ctx *Ctx, fn *ssa.Function, unproven map[string]int, br *boundsRes
 				br.proved++
 				continue
 			}
-			if e.Pos.IsValid() {
+			// (a check inside a library function is not on the compiler's list for this line)
+			if e.Pos.IsValid() && e.Name != "libslice" {
 				pos := ctx.P.Fset.Position(e.Pos)
 				rel, _ := filepath.Rel(ctx.P.Dir, pos.Filename)
 				if unproven[fmt.Sprintf("%s:%d", rel, pos.Line)] == 0 {
@@ -602,9 +603,22 @@ func boundsLen(z *zbCtx, base *Term) lin {
 	return z.linLen(base)
 }
 
+// panickyExternals: library functions that panic for some well-typed
+// arguments (a zero reflect.Value, a negative count, an index out of range, an
+// empty slice, nil). The module calls none of them today; one that appears is
+// reported rather than reasoned about.
+var panickyExternals = []string{
+	"reflect.", "(reflect.", "(*reflect.", "unsafe.",
+	"strings.Repeat", "bytes.Repeat", "(*strings.Builder).Grow", "(*bytes.Buffer).Grow", "(*bytes.Buffer).Truncate",
+	"slices.Grow", "slices.Max", "slices.Min", "slices.Repeat", // slices.Insert/Delete/Replace: bounds obligations of R17.b
+	"(*sync.WaitGroup).Add", "(*sync/atomic.Value).Store", "(*sync/atomic.Value).Swap", "(*sync/atomic.Value).CompareAndSwap",
+	"math/rand.Intn", "math/rand.Int31n", "math/rand.Int63n", "math/rand/v2.IntN", "math/rand/v2.N",
+	"strings.NewReplacer", "time.NewTicker", "time.Tick", "regexp.MustCompile", "text/template.Must", "(*math/big.",
+}
+
 func checkC17(ctx *Ctx) *Result {
 	r := newResult("C17")
-	r.Explanation = "Decided for every Config and every request, as absence of the constructs that can panic: (R17.a) inventory over everything reachable from NewMiddleware, Reconfigure, Config, SetDebug, Wrap's closure and cfgerrors.All — no explicit panic, no single-result type assertion, no division by a non-constant, no store into a possibly-nil map, no Must* call; the nullable pointers (Config argument of the builder, snapshot in the rendering function and in the request closure) are only dereferenced on paths that excluded nil; (R17.b) bounds — every index and slice operation on every path summary of every such function gives the obligations 0 ≤ i < len resp. 0 ≤ lo ≤ hi ≤ len, each proved from the branch conditions preceding it on the path, length arithmetic of slices/literals/appends, library postconditions (IndexByte, BinarySearch, min), recognised induction variables and the named module invariants below, or taken from the compiler's own prove pass when it eliminated every check on that line; (R17.c) IndexAfter's precondition n < Size holds at its call sites; (R17.d) Tree.Insert only receives patterns from a successful ParsePattern, whose host is non-empty; (R17.e) the subdomains kind is only assigned under HasPrefix(`*.`); (R17.f) the only recursions are node.elems (on children) and cfgerrors.All (on Unwrap() elements); (R17.g) fastParseHost returns substrings of its argument; (R19.1) cfgerrors.All never calls yield again after it returned false (which would make range-over-func panic)."
+	r.Explanation = "Decided for every Config and every request, as absence of the constructs that can panic: (R17.a) inventory over everything reachable from NewMiddleware, Reconfigure, Config, SetDebug, Wrap's closure and cfgerrors.All — no explicit panic, no single-result type assertion, no division by a non-constant, no store into a possibly-nil map, no Must* call, no library call known to panic for some arguments (reflect, Repeat, slices.Max/Min, …; slices.Insert/Delete/Replace give bounds obligations instead); the nullable pointers (Config argument of the builder, snapshot in the rendering function and in the request closure) are only dereferenced on paths that excluded nil; (R17.b) bounds — every index and slice operation on every path summary of every such function gives the obligations 0 ≤ i < len resp. 0 ≤ lo ≤ hi ≤ len, each proved from the branch conditions preceding it on the path, length arithmetic of slices/literals/appends, library postconditions (IndexByte, BinarySearch, min), recognised induction variables and the named module invariants below, or taken from the compiler's own prove pass when it eliminated every check on that line; (R17.c) IndexAfter's precondition n < Size holds at its call sites; (R17.d) Tree.Insert only receives patterns from a successful ParsePattern, whose host is non-empty; (R17.e) the subdomains kind is only assigned under HasPrefix(`*.`); (R17.f) the only recursions are node.elems (on children) and cfgerrors.All (on Unwrap() elements); (R17.g) fastParseHost returns substrings of its argument; (R19.1) cfgerrors.All never calls yield again after it returned false (which would make range-over-func panic)."
 	r.NotDecided = "panics inside x/net, net/netip, net/http and the user's handler; stack exhaustion on absurdly deep error trees; the conversions int↔uint in cutAtComma are taken as value-preserving on non-negative lengths"
 	r.Trusted = []string{"go/types, go/ssa, the path-summary engine", "the Go compiler's prove pass (bounds checks it eliminated are safe)", "postconditions of strings.IndexByte, slices.BinarySearch, strings.CutPrefix/TrimSuffix, min/max, append, copy", "idna.Profile.ToASCII with VerifyDNSLength rejects the empty domain; netip.Addr.String is non-empty"}
 	r.rule("R17.a", "inventory of may-panic constructs in everything reachable from the API (expected: none); nullable pointers dereferenced only after a nil test", 5)
@@ -688,6 +702,17 @@ func checkC17(ctx *Ctx) *Result {
 				case ssa.CallInstruction:
 					if f := v.Common().StaticCallee(); f != nil && strings.HasPrefix(f.Name(), "Must") {
 						bad = "call of " + funcName(f) + " @" + p.Pos(ins.Pos())
+					}
+					if f := v.Common().StaticCallee(); f != nil && !p.InModule(f) && f.Name() != "init" {
+						name := funcName(f)
+						for _, pre := range panickyExternals {
+							if strings.HasPrefix(name, pre) {
+								bad = "call of " + name + ", which panics for some arguments (none of the module's invariants is known to exclude them) @" + p.Pos(ins.Pos())
+							}
+						}
+					}
+					if b, isB := v.Common().Value.(*ssa.Builtin); isB && b.Name() == "close" {
+						bad = "close of a channel (panics when nil or already closed) @" + p.Pos(ins.Pos())
 					}
 				case *ssa.SliceToArrayPointer:
 					bad = "slice-to-array conversion @" + p.Pos(v.Pos())
@@ -1149,6 +1174,7 @@ func checkC17(ctx *Ctx) *Result {
 	r.share(checkC07(ctx), map[string]string{
 		"R7.2": "every lock acquired by Reconfigure, SetDebug, Config and the request closure is released on every path",
 		"R7.4": "no interface/dynamic call and no call into module code while the lock is held (a wrapped handler calling SetDebug or Reconfigure would never return)",
+		"R7.5": "publication immutability: a published configuration is never written again, neither by a request nor by a later Reconfigure (a concurrent map write aborts the process; a slice header torn between two configurations indexes out of range)",
 	}, nil)
 	return r
 }
